@@ -29,6 +29,9 @@ type Item struct {
 	Pkg   string   `json:"pkg"`
 	Types []string `json:"types"`
 	Funcs []string `json:"funcs"` // "Name" or "Recv.Name"
+	// Extern: the package is translated by another spec (imported via "imports");
+	// references resolve to Gen.<pkg>.* but nothing is emitted here.
+	Extern bool `json:"extern"`
 }
 
 type Spec struct {
@@ -960,6 +963,9 @@ func main() {
 			fmt.Fprintln(os.Stderr, "package not loaded:", it.Pkg)
 			os.Exit(2)
 		}
+		if it.Extern {
+			continue
+		}
 		for _, t := range it.Types {
 			x.structDecl(p, t)
 		}
@@ -967,6 +973,9 @@ func main() {
 	x.out.WriteString("variable {α : Type} [Scalar α]\n\n")
 	for _, it := range spec.Items {
 		p := x.pkgs[it.Pkg]
+		if it.Extern {
+			continue
+		}
 		for _, f := range it.Funcs {
 			x.funcDecl(p, f)
 		}
